@@ -1,13 +1,31 @@
 use crate::engine::Ctx;
 
 pub mod c03;
+pub mod c04;
+pub mod c08;
+pub mod c09;
+pub mod c10;
+pub mod c11;
+
+pub const TABLE: &[(&str, fn(&mut Ctx))] = &[
+	("C03", c03::run),
+	("C04", c04::run),
+	("C08", c08::run),
+	("C09", c09::run),
+	("C10", c10::run),
+	("C11", c11::run),
+];
 
 pub fn run(ctx: &mut Ctx) -> bool {
-	match ctx.property.as_str() {
-		"C03" => c03::run(ctx),
-		_ => return false,
+	for (id, f) in TABLE {
+		if *id == ctx.property {
+			f(ctx);
+			return true;
+		}
 	}
-	true
+	false
 }
 
-pub const ALL: &[&str] = &["C03"];
+pub fn all() -> Vec<&'static str> {
+	TABLE.iter().map(|x| x.0).collect()
+}
